@@ -23,6 +23,7 @@ from .common import site
 
 GA = "cuqi/distribution/_gaussian.py"
 HELPERS = {"get_sqrtprec_from_cov": +1, "get_sqrtprec_from_sqrtcov": +1, "get_sqrtprec_from_prec": -1, "get_sqrtprec_from_sqrtprec": -1}
+HELPER_DIAG_BRANCHES = {h: 1 for h in HELPERS}       # log-determinants read off a matrix diagonal per helper, confirmed by hand
 
 
 def _norm(e) -> str:
@@ -65,10 +66,26 @@ def _r10(chk, repo):
     from ..flow import Expander
     from .common import canon_fn
     from ..pattern import norm as pn
-    n = 0
+    from .common import best_of
+    tot = [0]
     for helper in HELPERS:
         hf = repo.func(f"{GA}:{helper}")
-        ex = Expander(canon_fn(repo, None, hf, 1, rel=GA))
+        want = HELPER_DIAG_BRANCHES[helper]
+
+        def on_level(t, level, _hf=hf, _helper=helper, _want=want):
+            k = _r10_on(t, repo, _helper, _hf, Expander(canon_fn(repo, None, _hf, level, rel=GA)))
+            if k < _want:
+                raise AnchorError(f"{_helper}: {k} log-determinants read from a matrix diagonal found, {_want} confirmed by hand")
+            tot[0] += k
+        best_of(chk, (1, 2), on_level)         # as written; with module-level private helpers inlined
+    if tot[0] < 4:
+        raise AnchorError(f"{tot[0]} log-determinants read from a matrix diagonal found in the Gaussian helpers, 4 confirmed by hand (one diagonal branch each)")
+
+
+def _r10_on(chk, repo, helper, hf, ex):
+    from ..pattern import norm as pn
+    n = 0
+    if True:
         g = ex.cfg
         mat = func_params(hf)[1]
         for nd in g.nodes:
@@ -95,8 +112,7 @@ def _r10(chk, repo):
                     f"`{unparse(a)[:90]}` takes the log-determinant from the diagonal of `{mat}` in a branch that does not establish that `{mat}` is diagonal "
                     f"(or triangular): for a full square root such as sqrtm(prec) or Q @ chol(prec) the normalising constant is wrong while the same "
                     f"law given as cov / prec is normalised correctly", a)
-    if n < 4:
-        raise AnchorError(f"{n} log-determinants read from a matrix diagonal found in the Gaussian helpers, 4 confirmed by hand (one diagonal branch each)")
+    return n
 
 
 def _r1(chk, repo):
